@@ -813,6 +813,20 @@ def render(tr):
     return "\n".join(L)
 
 
+def rows_of_generated(text):
+    """recover the rows from an existing Generated/ValueTypes.v (used when the translation of the
+    current source fails and the previous table is kept for the executable model)"""
+    rows = []
+    side = r"\((?:None|Some \(mk_side (T\w+) (true|false) (\w+)\))\)"
+    opt = r"\((?:None|Some (T\w+))\)"
+    for m in re.finditer(r'mk_vrow \(K "([^"]+)"\) %s %s %s %s (true|false)' % (side, opt, side, opt), text):
+        g = m.groups()
+        rows.append((g[0], {"from": (g[1], g[2] == "true", g[3]) if g[1] else None, "null": g[4],
+                            "try": (g[5], g[6] == "true", g[7]) if g[5] else None, "arr": g[8],
+                            "notu8": g[9] == "true"}))
+    return rows
+
+
 def status(ok, err=""):
     err = re.sub(r'[^A-Za-z0-9 _.,:;<>()\[\]{}=!&*+/|$-]', "?", err)[:900]
     return ("(* GENERATED by tools/valuetypes.py: did the translation of /repo/src/value.rs succeed? *)\n"
